@@ -198,6 +198,7 @@ func driverEll(c *Ctx) {
 		g := c.gen(i)
 		g.MaxKids = 3
 		g.MaxVals = 3
+		g.Ladder, g.LadderTo = 30, 33
 		g.Indexed = i%2 == 1 // names of the shape the expansion generates: "v1" next to "v1[0]"
 		es := 0
 		var t *GItem
